@@ -229,7 +229,7 @@ func (w *c11World) c11Exec(e *Env, kase *c11Case, gen func(ctx sdk.Context, i in
 		pre := w.c11Observe(ctx, credited, d)
 		w.wrap.st = &c04WrapState{plan: pk.Plan}
 		var ackOut exported.Acknowledgement
-		err := Try(ctx, func(c sdk.Context) error {
+		err := TryPlain(ctx, func(c sdk.Context) error {
 			if credited != nil {
 				w.c11Mint(c, d.Denom, credited, amt) // the transfer module's credit
 			}
